@@ -89,13 +89,14 @@ func (c connStats) HandleConn(_ context.Context, s stats.ConnStats) {
 }
 
 type grpcHarness struct {
-	mu       sync.Mutex
-	scripts  map[string]callScript
-	records  map[string]*callRecord
-	backends []*grpcBackend
-	proxyLn  net.Listener
-	conn     *grpc.ClientConn
-	seq      int64
+	mu        sync.Mutex
+	scripts   map[string]callScript
+	records   map[string]*callRecord
+	backends  []*grpcBackend
+	proxyAddr string
+	conn      *grpc.ClientConn
+	seq       int64
+	poolBorn  time.Time // when the proxy (and its connection pool with the 5 s clean-up loop) was created
 }
 
 func (h *grpcHarness) handler(b *grpcBackend) grpc.StreamHandler {
@@ -196,13 +197,19 @@ func startGRPC(t *testing.T) *grpcHarness {
 		cfg.Proxy.GRPCMaxRxMsgSize, cfg.Proxy.GRPCMaxTxMsgSize = grpcRxLimit(), grpcTxLimit()
 		dp := metrics.DiscardProvider{}
 		sh := &proxy.GrpcStatsHandler{Connect: dp.NewCounter("c"), Request: dp.NewHistogram("r"), NoRoute: dp.NewCounter("n"), Status: dp.NewHistogram("s", "code")}
-		srv := grpc.NewServer(newGrpcProxy(cfg, nil, sh)...)
-		h.proxyLn, err = hx.Listen("tcp", "127.0.0.1:0")
-		if err != nil {
-			panic(err)
+		h.poolBorn = time.Now()
+		// the listener is started the way main.go starts a proto=grpc listener
+		h.proxyAddr = freeAddr()
+		opts := newGrpcProxy(cfg, nil, sh)
+		go func() {
+			if err := proxy.ListenAndServeGRPC(config.Listen{Addr: h.proxyAddr, Proto: "grpc"}, opts, nil); err != nil {
+				fmt.Println("grpc listener:", err)
+			}
+		}()
+		if !waitListening(h.proxyAddr) {
+			panic("VERIF-INCONCLUSIVE grpc listener did not come up")
 		}
-		go srv.Serve(h.proxyLn)
-		h.conn, err = grpc.NewClient(h.proxyLn.Addr().String(), grpc.WithTransportCredentials(insecure.NewCredentials()),
+		h.conn, err = grpc.NewClient(h.proxyAddr, grpc.WithTransportCredentials(insecure.NewCredentials()),
 			grpc.WithDefaultCallOptions(grpc.ForceCodec(rawCodec{}), grpc.MaxCallRecvMsgSize(8<<20)))
 		if err != nil {
 			panic(err)
@@ -299,7 +306,7 @@ func genGRPCTable(t *rapid.T, h *grpcHarness) grpcTable {
 	}
 	for _, cand := range []struct {
 		host, path string
-	}{{"", "/pkg.A/"}, {"beta", "/pkg.A/"}, {"", "/pkg.B/"}, {"", "/pkg.A/Special"}, {"beta", "/pkg.B/"}} {
+	}{{"", "/pkg.A/"}, {"beta", "/pkg.A/"}, {"", "/pkg.B/"}, {"", "/pkg.A/Special"}, {"beta", "/pkg.B/"}, {"", "/grpc.health.v1.Health/"}, {"", "/grpc.reflection.v1alpha.ServerReflection/"}} {
 		if rapid.IntRange(0, 2).Draw(t, "have") > 0 {
 			add(cand.host, cand.path, rapid.IntRange(0, 2).Draw(t, "be"))
 			if rapid.IntRange(0, 3).Draw(t, "second") == 0 {
@@ -374,7 +381,9 @@ func TestC16Calls(t *testing.T) {
 		route.SetTable(tbl)
 		ncalls := rapid.IntRange(1, 4).Draw(t, "ncalls")
 		for c := 0; c < ncalls; c++ {
-			method := rapid.SampledFrom([]string{"/pkg.A/M1", "/pkg.A/M2", "/pkg.A/Special", "/pkg.B/Get", "/pkg.C/Nope", "/pkg.A/SpecialX"}).Draw(t, "method")
+			method := rapid.SampledFrom([]string{"/pkg.A/M1", "/pkg.A/M2", "/pkg.A/Special", "/pkg.B/Get", "/pkg.C/Nope", "/pkg.A/SpecialX",
+				// well-known services a gRPC server might answer itself: they are method paths like any other
+				"/grpc.health.v1.Health/Check", "/grpc.health.v1.Health/Watch", "/grpc.reflection.v1alpha.ServerReflection/ServerReflectionInfo", "/grpc.channelz.v1.Channelz/GetServers"}).Draw(t, "method")
 			var dsthost []string
 			switch rapid.IntRange(0, 5).Draw(t, "dsthost") {
 			case 1:
@@ -506,6 +515,9 @@ func TestC16Calls(t *testing.T) {
 				}
 			}
 			hx.Class("shape:" + shape)
+			if strings.HasPrefix(method, "/grpc.") {
+				hx.Class("well-known-grpc-service-path-routed")
+			}
 			for _, m := range reqs {
 				if len(m) > grpcTxLimit() {
 					hx.Class("request-larger-than-the-send-limit")
